@@ -52,6 +52,8 @@ pub unsafe extern "C" fn nanosleep(req: *const libc::timespec, rem: *mut libc::t
 
 // ------------------------------------------------------------------ counting allocator
 
+/// the tier of this process (parent and workers alike), for code that has no tier parameter
+pub static THOROUGH: std::sync::atomic::AtomicBool = std::sync::atomic::AtomicBool::new(false);
 pub static MAX_REQ: AtomicUsize = AtomicUsize::new(0);
 pub static LIVE: AtomicUsize = AtomicUsize::new(0);
 pub static PEAK: AtomicUsize = AtomicUsize::new(0);
@@ -158,6 +160,7 @@ fn main() {
         }
         i += 1;
     }
+    THOROUGH.store(tier == "thorough", Ordering::SeqCst);
     if tier != "quick" && tier != "thorough" {
         usage();
     }
